@@ -21,17 +21,18 @@ VARIABLES data,      \* sequence of values in the channel (oneshot: length <= 1;
           waker,     \* registered waker id or 0
           woken,     \* waker id -> number of wake-ups delivered
           received,  \* sequence of values handed to the receiver
+          raced,     \* a racing operation pair has been issued (terminal)
           nSend, nPoll, nextVal, lastOp
 
-vars == <<data, senders, waker, woken, received, nSend, nPoll, nextVal, lastOp>>
-view == <<data, senders, waker, woken, received, nSend, nPoll, nextVal>>
+vars == <<data, senders, waker, woken, received, raced, nSend, nPoll, nextVal, lastOp>>
+view == <<data, senders, waker, woken, received, raced, nSend, nPoll, nextVal>>
 
 Init == /\ data = <<>> /\ senders = 1 /\ waker = 0 /\ woken = [k \in Wakers |-> 0] /\ received = <<>>
-        /\ nSend = 0 /\ nPoll = 0 /\ nextVal = 1 /\ lastOp = [op |-> "Init"]
+        /\ raced = FALSE /\ nSend = 0 /\ nPoll = 0 /\ nextVal = 1 /\ lastOp = [op |-> "Init"]
 
 Wake == IF waker # 0 THEN /\ woken' = [woken EXCEPT ![waker] = @ + 1] /\ waker' = 0
         ELSE UNCHANGED <<woken, waker>>
-Proj == [data |-> data, senders |-> senders, waker |-> waker, woken |-> woken, received |-> received,
+Proj == [data |-> data, senders |-> senders, waker |-> waker, woken |-> woken, received |-> received, raced |-> raced,
          aux |-> <<nSend, nPoll, nextVal>>]
 
 \* send / notify: the value becomes available and the registered waker is woken
@@ -43,13 +44,13 @@ Send ==
     /\ Wake
     \* the oneshot sender is consumed by send
     /\ senders' = IF Kind = "oneshot" THEN 0 ELSE senders
-    /\ UNCHANGED <<received, nPoll>>
+    /\ UNCHANGED <<received, nPoll, raced>>
     /\ lastOp' = [op |-> "Send", v |-> nextVal, expect |-> [res |-> "Ok"], tag |-> "send"]
 
 CloneSender ==
     /\ Kind # "oneshot" /\ senders > 0 /\ senders < MaxSenders
     /\ senders' = senders + 1
-    /\ UNCHANGED <<data, waker, woken, received, nSend, nPoll, nextVal>>
+    /\ UNCHANGED <<data, waker, woken, received, raced, nSend, nPoll, nextVal>>
     /\ lastOp' = [op |-> "Clone", expect |-> [res |-> "Ok"], tag |-> "clone"]
 
 \* dropping the last sender wakes a waiting receiver so that it can observe the disconnection
@@ -57,14 +58,14 @@ DropSender ==
     /\ senders > 0
     /\ senders' = senders - 1
     /\ IF senders = 1 THEN Wake ELSE UNCHANGED <<woken, waker>>
-    /\ UNCHANGED <<data, received, nSend, nPoll, nextVal>>
+    /\ UNCHANGED <<data, received, raced, nSend, nPoll, nextVal>>
     /\ lastOp' = [op |-> "DropSender", expect |-> [res |-> "Ok"],
                   tag |-> IF senders = 1 THEN "drop:last-sender" ELSE "drop"]
 
 Poll(k) ==
     /\ nPoll < MaxPolls
     /\ nPoll' = nPoll + 1
-    /\ UNCHANGED <<senders, nSend, nextVal>>
+    /\ UNCHANGED <<senders, nSend, nextVal, raced>>
     /\ IF data # <<>> THEN
             /\ data' = Tail(data) /\ received' = Append(received, Head(data))
             /\ UNCHANGED <<waker, woken>>
@@ -76,8 +77,31 @@ Poll(k) ==
             /\ waker' = k /\ UNCHANGED <<data, received, woken>>
             /\ lastOp' = [op |-> "Poll", k |-> k, expect |-> [res |-> "Pending"], tag |-> "poll:pending"]
 
+(* A send (or the drop of the last sender) issued by another thread WHILE the receiver is inside poll on an empty      *)
+(* channel.  Every operation being one critical section, the pair must behave as one of the two orders:               *)
+(*   poll ; other  -> Pending, waker k registered and then woken, the value (if any) is in the channel                *)
+(*   other ; poll  -> the previously registered waker is woken, poll returns the value / the disconnection            *)
+(* Anything else (Pending without a wake-up while the value sits in the channel) is a lost wake-up.  Terminal.        *)
+PollRacing(k, other) ==
+    /\ ~raced /\ data = <<>> /\ senders > 0 /\ nPoll < MaxPolls
+    /\ (other = "send" => nSend < MaxSends /\ (Kind = "oneshot" => nSend = 0))
+    /\ (other = "drop" => senders = 1)
+    /\ raced' = TRUE /\ nPoll' = nPoll + 1 /\ nextVal' = nextVal + 1
+    /\ nSend' = IF other = "send" THEN nSend + 1 ELSE nSend
+    \* successor state: the order poll ; other
+    /\ data' = IF other = "send" THEN (IF Kind = "notification" THEN <<1>> ELSE <<nextVal>>) ELSE data
+    /\ senders' = IF other = "drop" \/ Kind = "oneshot" THEN 0 ELSE senders
+    /\ waker' = 0 /\ woken' = [woken EXCEPT ![k] = @ + 1] /\ UNCHANGED received
+    /\ LET first == [res |-> "Pending", woken |-> woken'[k], prev |-> IF waker # 0 /\ waker # k THEN woken[waker] ELSE 0]
+           second == [res |-> IF other = "send" THEN "Ready" ELSE "Disconnected",
+                      woken |-> IF waker = k THEN woken[k] + 1 ELSE woken[k],
+                      prev |-> IF waker # 0 /\ waker # k THEN woken[waker] + 1 ELSE 0]
+       IN lastOp' = [op |-> "PollRacing", k |-> k, other |-> other, v |-> nextVal, prevwaker |-> waker,
+                     expect |-> [anyOf |-> {first, second}], tag |-> "poll:racing-" \o other]
+
 Emit == PrintT(<<"EDGE", ToJson([s |-> Proj, o |-> lastOp', d |-> Proj'])>>)
-Step == Send \/ CloneSender \/ DropSender \/ \E k \in Wakers : Poll(k)
+Step == \/ (~raced /\ (Send \/ CloneSender \/ DropSender \/ \E k \in Wakers : Poll(k)))
+        \/ \E k \in Wakers, other \in {"send", "drop"} : PollRacing(k, other)
 Next == Step /\ Emit
 Spec == Init /\ [][Next]_vars
 
